@@ -33,11 +33,6 @@ def numelSat (s : List Nat) : Nat :=
   if s.any (· == 0) then 0 else
   s.foldl (fun p e => if e > maxElems || p > maxElems then maxElems + 1 else p * e) 1
 
-def hasNonePart : Entry → Bool
-  | .range a b c => a.isNone || b.isNone || c.isNone
-  | .range2 a b => a.isNone || b.isNone
-  | _ => false
-
 def answerIndex (shapeF : Option (List Nat)) (idxF : List Nat → Option (List Nat)) (at? : Option (List Nat)) : String :=
   match shapeF with
   | none => "unmodelled"
@@ -102,10 +97,6 @@ def handle : Handler := fun op a =>
       let es ← (a.get? "sl").bind parseEntries
       let dyn := enc == "dynP" || enc == "dynA"
       if !dyn && enc != "packed" then none
-      -- view::slice / view::mutable_slice (variadic) go through `nmtools_tuple{slices...}`
-      let viaVariadic := !dyn && (level == "view" || level == "mutable")
-      if viaVariadic && es.length == 1 && es.any hasNonePart then pure "not-callable" else
-      let es := if viaVariadic then ctadCollapse es else es
       let shapeF := if dyn then shapeDynamicSlice src es else shapeSlice src es
       let idxF := if dyn then dynamicSlice src es else sliceIdx src es
       match level with
